@@ -1238,6 +1238,45 @@ def c13_tree_cases(exe, tier, seed, verdict):
             nn += 1
         if len(samples) < 2:
             samples.append({"tree": tree_text(t), "malformed_file": list(f), "expect": want})
+    # the same through the history entry points (2 layers): right code, right location, and NO list handed back (pointer NULL)
+    r2_, recs2_, _ = tree_export(2, [3, 6], 12, ["bb"])
+    recs2_ = [x for x in recs2_ if len(x["log"]) >= 1]
+    rnd.shuffle(recs2_)
+    hcases, hmetas = [], []
+    for x in recs2_:
+        K = [tuple(f) for f in x["log"]]
+        t = {"main": x["main"], "drop": x["drop"], "shp": x["shp"]}
+        for f in [f for f in K if not (f[1] == 0 and t["main"][f[0] - 1] != "regular")]:
+            bad, code = rnd.choice(BADLINES)
+            lineno = rnd.choice([1, 3, 4])
+            pre = ["x=1", "# c", ""][:lineno - 1]
+            i = len(hcases)
+            R = ROOT + "/bh%d" % (i % 16)
+            ent = ["readhist", "readhistcb"][i % 2]
+            shape = Shape(ent, 2)
+            s_, paths = materialise(t, shape, R, contents={f: "\n".join(pre + [bad, "y=2"]) + "\n"})
+            hcases.append((i, s_ + ["cbreset"] + shape.call(1, R, cb=ent.endswith("cb")) + ["errloc"] + ["free %d" % k for k in range(1, 9)]))
+            hmetas.append((t, paths, f, code, len(pre) + 1, ent))
+        if len(hcases) >= (150 if tier == "quick" else 2000):
+            break
+    hres = core.run_cases(exe, hcases)
+    for i, (t, paths, f, code, lineno, ent) in enumerate(hmetas):
+        out = hres.get(i)
+        fp = "C13:history:%s:%s" % ("main" if f[1] == 0 else "dropin", code)
+        case = {"kind": "badtree-history", "tree": t, "bad_file": list(f), "code": code, "line": lineno, "entry": ent}
+        if out is None or out["crash"]:
+            verdict.violation(fp + ":crash", dict(case, crash=(out or {}).get("crash")), "history read of a tree with a malformed file crashed\n" + (out or {}).get("crash", "")[:900])
+            continue
+        root = out["root"]
+        rd = next(e for e in out["ev"] if e["op"].startswith("readhist"))
+        el = next(e for e in out["ev"] if e["op"] == "errloc")
+        badpath = [norm(p.replace(ROOT, root)) for p, ff in paths.items() if ff == f][0]
+        got = {"rc": rd["rc"], "file": norm(el["file"] or ""), "line": el["line"], "list_handed_back": bool(rd["arr"])}
+        want = {"rc": code, "file": badpath, "line": lineno, "list_handed_back": False}
+        if got != want:
+            verdict.violation(fp, dict(case, got=got, want=want), "%s on tree %s with malformed %s: expected %s, library gave %s" % (ent, tree_text(t), f, want, got))
+        else:
+            ok += 1
     # missing file -> ECONF_NOFILE
     s = ["readfile 1 %s x3d x23" % hx(ROOT + "/does/not/exist.conf"), "free 1"]
     o = core.run_cases(exe, [("nf", s)], jobs=1)["nf"]
